@@ -145,6 +145,11 @@ CHECKS = {
         dict(prop="C05", harness="codec_pbt", quick=dict(count=60000, workers=8), thorough=dict(count=6000000, workers=16),
              essential=_CODEC_ESS_KINDS + ["mut:count", "frame:prefix", "frame:truncated-stream", "frame:short-raw", "frame:corrupt-stream",
                                            "zlib:returned", "zlib:rejected"]),
+        # deterministic, complete enumeration around fixed valid blobs: 6 seeds per kind (quick) / 30 larger seeds per kind (thorough)
+        dict(prop="C05.enum", harness="codec_pbt", quick=dict(count="enum", workers=8), thorough=dict(count=0, workers=1),
+             essential=_CODEC_ESS_KINDS + ["kind=zlib_uncompress"] + ["enum:" + f for f in "TBZFPSCXY"]),
+        dict(prop="C05.enumL", harness="codec_pbt", quick=dict(count=0, workers=1), thorough=dict(count="enum", workers=16),
+             essential=_CODEC_ESS_KINDS + ["kind=zlib_uncompress"] + ["enum:" + f for f in "TBZFPSCXY"]),
         dict(prop="C05.fuzz", kind="fuzz", targets=list(range(12)), quick_runs=200000, thorough_runs=8000000),
     ]),
     "C18": dict(level="exploration", parts=[
@@ -312,7 +317,12 @@ RULES = {
            "zlib level, wrong length prefix, deflate stream cut anywhere / near the end / inside a stored block, bytes after the stream, raw "
            "0..8 bytes, bit flip inside the stream); the decoder and zlib_uncompress must return or throw std::exception under ASan+UBSan+"
            "_GLIBCXX_ASSERTIONS and a 30 s watchdog; when the frame is well-formed zlib_uncompress must agree with one-shot inflate. fuzz part: "
-           "libFuzzer (ASan+UBSan, -timeout=20) on 11 decoders + zlib_uncompress, seeds = generator-made valid blobs. Every input is "
+           "libFuzzer (ASan+UBSan, -timeout=20) on 11 decoders + zlib_uncompress, seeds = generator-made valid blobs. enum part (no randomness, "
+           "case i is a function of i; complete inside the stated box): for 6 (quick) / 30 (thorough, up to 1500 bytes) fixed valid payloads per kind: every truncation of the "
+           "payload and of the framed blob (default level and stored blocks), every byte position of payload and frame x {^01, ^80, =00, =ff}, every "
+           "embedded count field x 29 boundary values (INT64_MIN, -1, -2, 0, 1, fit-1, fit, fit+1, 2^31, 2^32, 2^59, 2^61, 2^63-1, multipliers that wrap 3*n / 24*n), "
+           "the length prefix x 10 boundary values; and every byte string of length <= 2 into each of the 12 entry points, bare and behind four "
+           "length prefixes / loop counts. Every input is "
            "non-trivial in the sense that it reaches a decoder; distinct = distinct byte strings (pbt) + coverage-increasing corpus units (fuzz).",
     "C18": "track part: case = 2.x schema + up to 9 operations on track_table (add / update of a generated 49-field row: every optional "
            "present or absent, strings incl. quotes/UTF-8/300+ bytes, int64 edges and pairwise distinct values in same-typed columns, bools, "
